@@ -111,6 +111,17 @@ def make_jobs(ctx, stride=1, channels=(1, 2, 3), skip_major=(0x16,)):
             jobs.append(j)
     if stride > 1:
         jobs = jobs[rng.randrange(stride)::stride]
+    # encodings whose block size is derived from samplerate * channels (IMA / MS ADPCM in the RIFF family): the product overflows an int
+    # from 2^30 Hz stereo on, and two sites (codec init and the fmt chunk writer) must agree on the result -- always exercised
+    for f in fs:
+        if f.codec in (0x12, 0x13) and f.major in (0x01, 0x0B, 0x13, 0x22) and f.maxch >= 2:
+            for sr in (2 ** 30, 2 ** 31 - 1):
+                B = G.block_frames(f, 2, 8000)
+                n = rng.choice([B + 1, 2 * B + 1, 2041, 2036])
+                ty = rng.choice(["s16", "s32"])
+                j = Job(f, 2, sr, n, ty, gen_values(rng, ty, n * 2, 0), None)
+                j.garbage = 0
+                jobs.append(j)
     return jobs
 
 
